@@ -3,7 +3,11 @@
      whoever makes the queue non-empty sets DIRTY and either enqueues the queue or leaves it to an owner;
      an owner can only leave without re-checking if DIRTY was clear at the instant it released the lock. */
 /* while the calling thread owns the drain lock, other threads never clear DIRTY (only lock owners do) */
+#ifdef H_DRAINNB   /* ... and nobody but the owner enters or leaves barrier mode */
+#define ST_VALID_STEP(prev, nw) ((!((prev) & DIRTY) || ((nw) & DIRTY)) && (((prev) ^ (nw)) & IN_BARRIER) == 0)
+#else
 #define ST_VALID_STEP(prev, nw) (!((prev) & DIRTY) || ((nw) & DIRTY))
+#endif
 #include "st.h"
 void _dispatch_bug(u64 l, u64 v) { ASSERT(0, "_dispatch_bug"); }
 static u32 basepri_override;
@@ -126,6 +130,33 @@ void harness(void) {
     ASSERT(WFIELD(n) == WFIELD(o) - in_width, "the full width is given back");
     WITNESS_IF(pushes == 1, "async hand-off push"); WITNESS_IF(!in_target && !IS_SUSPENDED(o), "clean release"); WITNESS_IF(IS_SUSPENDED(o), "release while suspended");
   }
+}
+#endif
+#ifdef H_DRAINNB
+/* _dispatch_lane_drain_non_barriers: a barrier owner on a concurrent queue finds a non-barrier item at the head: it leaves barrier mode, redirects the item and gives the
+   queue up.  One plain asynchronous item is queued; other threads may set DIRTY (they pushed something) at any of the unit's atomic steps. */
+static int redirects;
+void _dispatch_continuation_redirect_push(u64 dq, u64 dc, u32 qos) { redirects++; }
+void _dispatch_lane_barrier_complete(u64 dq, u32 qos, u32 flags) { ASSERT(0, "barrier completion is not reached when nothing is left queued"); }
+u64 _dispatch_wait_for_enqueuer(u64 p) { ASSERT(0, "no enqueuer is in flight in this lemma"); return IR_LD64(p); }
+void _dispatch_non_barrier_waiter_redirect_or_wake(u64 dq, u64 dc) { ASSERT(0, "the queued item is no sync waiter"); }
+static _Bool st_valid(u64 s) { return OWNER(s) == TID && WFIELD(s) >= in_width && !(s & ENQUEUED_ON_MGR); }
+void harness(void) {
+  st_setup(); SYM(in_consume2); in_consume2 &= 1;
+  ASSUME(in_width >= 2);                                                  /* concurrent queue */
+  ASSUME(st_valid(in_state) && (in_state & IN_BARRIER)); ASSUME(!(in_state & ROLE_BASE_WLH)); st_interfere_on = 1;
+  u64 dc = ir_bump(P_SZ_cont); IR_ST64(dc + P_OFF_dc_flags, P_DC_FLAG_CONSUME); IR_ST64(dc + P_OFF_dc_next, 0);
+  IR_ST64(DQ + P_OFF_items_head, dc); IR_ST64(DQ + P_OFF_items_tail, dc);
+  _dispatch_lane_drain_non_barriers(DQ, dc, (u32)(in_consume2 ? P_WAKEUP_CONSUME_2 : 0));
+  u64 o = st_last_old, n = st_last_new;
+  ASSERT(redirects == 1, "the queued item is redirected to the target exactly once");
+  ASSERT(IR_LD64(DQ + P_OFF_items_head) == 0 && IR_LD64(DQ + P_OFF_items_tail) == 0, "the item was taken off the list");
+  ASSERT(OWNER(n) == 0 && !(n & IN_BARRIER), "the drain lock and barrier mode are given up");
+  ASSERT(!(o & DIRTY), "HAND-OFF: the lock is never released past a DIRTY bit: a push that raced with the drain makes the owner look at the list again");
+  ASSERT(WFIELD(n) == WFIELD(o) - (in_width - 1), "all of the width is given back except the unit that travels with the redirected item");
+  ASSERT(pushes == 0 && wakeups == 0, "nothing is queued any more: no push, no wakeup");
+  ASSERT(releases2 == (int)in_consume2, "the +2 of the wakeup that drove the drain is consumed exactly once");
+  WITNESS_IF(st_ntrans >= 3, "a racing push (DIRTY) made the owner re-examine the list before unlocking"); WITNESS_IF(st_ntrans == 2, "clean unlock");
 }
 #endif
 void _dispatch_lane_drain_barrier_waiter(u64 dq, u64 dc, u32 flags, u64 owned) { ASSERT(0, "barrier waiter path not part of this lemma"); }
